@@ -61,7 +61,11 @@ Pool == <<
   \* reach both buckets, which already exist (23, 24 are part of the initial list)
   [W("*") EXCEPT !.pos = {"script"}, !.dom = {"y.com", "z.com"}],
   [W("*") EXCEPT !.pos = {"image"}, !.dom = {"z.com"}],
-  [W("*") EXCEPT !.pos = {"image"}, !.dom = {"y.com"}]
+  [W("*") EXCEPT !.pos = {"image"}, !.dom = {"y.com"}],
+  \* 25-27: the same for csp rules (25 addable; 26, 27 part of the initial list)
+  [W("*") EXCEPT !.mkind = "csp", !.mval = "d2", !.dom = {"y.com", "z.com"}],
+  [W("*") EXCEPT !.mkind = "csp", !.mval = "d3", !.dom = {"z.com"}],
+  [W("*") EXCEPT !.mkind = "csp", !.mval = "d4", !.dom = {"y.com"}]
 >>
 \* resources (C06: answers are a function of the LOADED resources): r1 has the alias al1, a later resource
 \* NAMED al1 collides with it - whichever is added first wins; p1 needs a permission and is never served
@@ -76,9 +80,9 @@ ResSeq(st) == [i \in DOMAIN st |-> ResPool[st[i]]]
 StoreNow == EffectiveStore(ResSeq(store))
 UseChoices == {<<>>, <<1, 2>>, <<3, 1>>, <<1, 3, 4>>, <<2>>, <<1, 5>>, <<5, 1>>}
 PoolX == Pool
-InitRules == IF InitSet = "full" THEN <<1, 2, 3, 4, 5, 6, 7, 8, 10, 11, 23, 24>>
+InitRules == IF InitSet = "full" THEN <<1, 2, 3, 4, 5, 6, 7, 8, 10, 11, 23, 24, 26, 27>>
              ELSE IF InitSet = "res" THEN <<15, 16, 17, 18, 19, 13, 3>> ELSE <<3, 5, 7, 13>>
-Addable == IF Mode = "blocker" THEN {9, 12, 14, 20, 21, 22} ELSE {}
+Addable == IF Mode = "blocker" THEN {9, 12, 14, 20, 21, 22, 25} ELSE {}
 
 MkReq(path, alias) ==
   LET pre == Chars("https://") h == Chars("x.com") IN
@@ -89,7 +93,8 @@ Reqs == << MkReq("/aaa/bbb", "script"), MkReq("/ccc/ddd", "script"), MkReq("/eee
            MkReq("/fff/x/ggg", "script"), MkReq("/hhh/iii", "script"), MkReq("/aaa-bbb", "script"),
            MkReq("/ab-x", "script"), MkReq("/ab_x", "script"), MkReq("/ab.x", "script"), MkReq("/p?q=1&r=2", "xhr"),
            MkReq("/jjj", "script"), MkReq("/kkk", "script"),
-           [MkReq("/zzz", "script") EXCEPT !.src = Chars("z.com")], [MkReq("/zzz", "image") EXCEPT !.src = Chars("s.z.com")] >>
+           [MkReq("/zzz", "script") EXCEPT !.src = Chars("z.com")], [MkReq("/zzz", "image") EXCEPT !.src = Chars("s.z.com")],
+           [MkReq("/zzz", "document") EXCEPT !.src = Chars("z.com")] >>
 
 TagSets == SUBSET {"t1", "t2"}
 RuleSeq(rs) == [i \in DOMAIN rs |-> PoolX[rs[i]]]
